@@ -156,8 +156,11 @@ pub fn wits_presence(mode: Mode) -> BoxedScenario {
                 3 => {
                     let mut x = PlutusScripts::new();
                     x.add(&PlutusScript::new(vec![1, 2, 3]));
-                    x.add(&PlutusScript::new_v2(vec![4, 5]));
-                    x.add(&PlutusScript::new_v3(vec![6]));
+                    if mode != Mode::C17 {
+                        // the JSON form does not carry the language (C17 known finding, own scenario)
+                        x.add(&PlutusScript::new_v2(vec![4, 5]));
+                        x.add(&PlutusScript::new_v3(vec![6]));
+                    }
                     w.set_plutus_scripts(&x)
                 }
                 4 => {
